@@ -77,6 +77,7 @@ def monitorsWant (c : Spec.Ctx) (obsDelta : Int) (j : Journal) (fatalHere : Bool
   (if Spec.C07.orderHolds c j then [] else ["C07|order"]) ++
   (if Spec.C07.reuseHolds c j then [] else ["C07|reuse"]) ++
   ((Spec.C10.untaintBad c j).map (fun t => "C10|" ++ t)) ++
+  ((Spec.C10.taintBad c j).map (fun t => "C10|" ++ t)) ++
   (if fatalHere then [] else (Spec.C10.holdbackBad c obsDelta j).map (fun t => "C10|" ++ t)) ++
   (if Spec.C07.amountHolds c want j then [] else ["C07|amount", "C05|compose"]) ++
   (if Spec.C07.amountHolds c (want + 1000000000) j then [] else ["C17|a SetDesiredCapacity of a scale-up does not raise the desired size the cloud holds (request not current + d)"]) ++
@@ -310,7 +311,10 @@ def handleScan (ds : DState) (sc : ScanCase) : DState × Json :=
     let mons := mons ++ monTouch
     -- shared informer objects must not be modified by the controller (the next scan would read the modification)
     let monMut : List String := (sc.mutated.getD []).flatMap (fun x =>
-      ["C13:lister-object-modified:" ++ x, "C15:lister-object-modified:" ++ x])
+      ["C13:lister-object-modified:" ++ x, "C15:lister-object-modified:" ++ x] ++
+      -- the taints of a cached node object were rewritten in place: later scans sort it into the wrong list without
+      -- any API call for it (oldest-first tainting, newest-first reuse and the minimum count all read those lists)
+      (if x.endsWith ":taints" then ["C08:lister-object-modified:" ++ x, "C07:lister-object-modified:" ++ x, "C03:lister-object-modified:" ++ x] else []))
     let mons := mons ++ monLists ++ monMut
     let mons := mons ++ mon20
     let armed' : List (String × Int) := sc.obs.recs.foldl (fun acc ob =>
@@ -382,6 +386,7 @@ def handleLine (ds : DState) (line : String) : DState × Json :=
         | "validate" => some (handleValidate j)
         | "startup" => some (handleStartup j)
         | "decode" => some (handleDecode j)
+        | "decode2" => some (handleDecode2 j)
         | _ => none
       match out with
       | none => (ds, Json.mkObj [("error", toJson ("unknown op " ++ other))])
